@@ -10,8 +10,10 @@
 (*  "hist":   registration histories over the small pool (6 patterns with    *)
 (*            interesting match relations), 2 step types + generic, each     *)
 (*            registration preceded by an optional matcher switch            *)
-(*            (use_step_matcher / end of step module), the function either   *)
-(*            new or one registered before; an optional change of the        *)
+(*            (use_step_matcher / end of step module) or a re-registration   *)
+(*            of the custom type Colour with another converter, the function *)
+(*            either new or one registered before (each function wrapped by  *)
+(*            0, 1 or 2 stacked decorators); an optional change of the       *)
 (*            default matcher at the very beginning (environment.py).        *)
 (* Histories of up to FullRegs registrations are enumerated completely;      *)
 (* longer ones (up to MaxRegs) are a seeded pseudo-random sample: a successor *)
@@ -46,12 +48,12 @@ LookTypes == <<"given", "when", "step">>
 
 \* representatives of the token classes used to instantiate a field (variant 1 and 2)
 Choice(fk, v0) ==
-   LET v == IF fk = "falsy" THEN v0 ELSE 2 - (v0 % 2) IN
+   LET v == IF fk = "falsy" \/ (fk = "custom" /\ v0 = 3) THEN v0 ELSE 2 - (v0 % 2) IN
    CASE fk = "any"      -> IF v = 1 THEN <<Home>> ELSE <<Far, Away>>
      [] fk = "int"      -> IF v = 1 THEN << <<"7">> >> ELSE << <<"-","1","2">> >>
      [] fk = "word"     -> IF v = 1 THEN <<Red>> ELSE << <<"G","o","_","2">> >>
      [] fk = "float"    -> IF v = 1 THEN << <<"1",".","5">> >> ELSE << <<".","2","5">> >>
-     [] fk = "custom"   -> IF v = 1 THEN <<Blue>> ELSE <<Red>>
+     [] fk = "custom"   -> IF v = 1 THEN <<Blue>> ELSE IF v = 2 THEN <<Red>> ELSE <<Pink>>   \* pink: second converter only
      [] fk = "many"     -> IF v = 1 THEN << <<"r","e","d",",","b","l","u","e">> >> ELSE <<Green>>
      [] fk = "falsy"    -> << <<TNone, TZero, TBlank, TNo, TNil>>[v] >>
      [] OTHER           -> IF v = 1 THEN <<Red>> ELSE <<>>          \* optional, many0: present / absent
@@ -65,7 +67,8 @@ TextsOf(p) ==
        i == FirstLit(p)
        hasFalsy == \E n \in DOMAIN p : p[n].k = "falsy"
    IN <<base, Inst(p, 2)>>
-      \o (IF hasFalsy THEN <<Inst(p, 3), Inst(p, 4), Inst(p, 5)>> ELSE <<>>)
+      \o (IF hasFalsy THEN <<Inst(p, 3), Inst(p, 4), Inst(p, 5)>>
+          ELSE IF \E n \in DOMAIN p : p[n].k = "custom" THEN <<Inst(p, 3)>> ELSE <<>>)
       \o (IF i = 0 THEN <<>> ELSE <<Inst(WithLit(p, Cap(p[i].w)), 1), Inst(WithLit(p, XX), 1)>>)
       \o << <<Oh>> \o base, base \o <<Oh>> >>
 
@@ -88,8 +91,9 @@ BigPool == {p \in UNION {PatsOfLen(n) : n \in 1..BigLen} : p[1].k \notin FusedKi
 
 \* ---------------------------------------------------------------- the state space
 VARIABLES ph, b, st, hist, nreg, nfun, h,
+          fw,            \* fw[n]: how many stacked functools.wraps decorators wrap step function n (0, 1, 2)
           texts, look    \* the lookups of the history and their results, computed once per state
-vars == <<ph, b, st, hist, nreg, nfun, h, texts, look>>
+vars == <<ph, b, st, hist, nreg, nfun, h, fw, texts, look>>
 \* the "single" behaviours are spread over NB bucket states (the successors of one state are computed by one worker)
 NB == 32
 ElemCode(e) == CASE e.k = "lit" -> Len(e.w) [] e.k = "any" -> 5 [] e.k = "int" -> 7 [] e.k = "word" -> 9 [] e.k = "float" -> 11
@@ -101,9 +105,11 @@ Seed == IF "C11_SEED" \in DOMAIN IOEnv THEN atoi(IOEnv.C11_SEED) % 60000 ELSE 1
 \* hash of the choices of a history (all products stay below 2^31)
 KindCode(mk) == CASE mk = "parse" -> 0 [] mk = "cfparse" -> 1 [] mk = "re" -> 2 [] OTHER -> 3
 TypeCode(ty) == CASE ty = "given" -> 0 [] ty = "when" -> 1 [] OTHER -> 2
-PreCode(pre) == IF pre.a = "none" THEN 0 ELSE IF pre.a = "end" THEN 5 ELSE 1 + KindCode(pre.kind)
+PreCode(pre) == IF pre.a = "none" THEN 0 ELSE IF pre.a = "end" THEN 5 ELSE IF pre.a = "retype" THEN 6 ELSE 1 + KindCode(pre.kind)
 Code(pre, ty, i, func) == ((PreCode(pre) * 3 + TypeCode(ty)) * 6 + (i - 1)) * 8 + (func - 1)
 Mix(old, code) == LET a == (old * 131 + code * 7919 + Seed) % 65521 IN (a * 31421 + 6927) % 65521
+\* pseudo-random number of stacked decorators of a new step function: 0, 1, 2, 2
+WrapLevel(x) == IF x % 4 = 3 THEN 2 ELSE x % 4
 Kept(level, hash) == level <= FullRegs \/ hash % SampleMod[level] = 0
 \* histories that begin with a changed default matcher are sampled from the second registration on
 KeptEnv(level, hash) == hash % SampleModEnv[level] = 0
@@ -115,23 +121,27 @@ IsReg(a) == a.a = "reg"
 TextsFor(hs) == LET regs == SelectSeq(hs, IsReg) IN Dedup(Flat([k \in DOMAIN regs |-> TextsOf(regs[k].pat)]), <<>>)
 LooksFor(s, txs) == [ti \in DOMAIN LookTypes |-> [k \in DOMAIN txs |-> Lookup(s, LookTypes[ti], txs[k])]]
 
-Act(a, mk, ty, p, text, func, res) == [a |-> a, kind |-> mk, ty |-> ty, pat |-> p, text |-> text, func |-> func, res |-> res]
-UseAct(mk)    == Act("use", mk, "", <<>>, <<>>, 0, "")
-EndAct(mk)    == Act("end", mk, "", <<>>, <<>>, 0, "")
-SetDefAct(mk) == Act("setdef", mk, "", <<>>, <<>>, 0, "")
-RegAct(s, ty, p, func, res) == Act("reg", s.current, ty, p, Render(p, s.current), func, res)
+Act(a, mk, ty, p, text, func, wrap, res) ==
+   [a |-> a, kind |-> mk, ty |-> ty, pat |-> p, text |-> text, func |-> func, wrap |-> wrap, res |-> res]
+UseAct(mk)    == Act("use", mk, "", <<>>, <<>>, 0, 0, "")
+EndAct(mk)    == Act("end", mk, "", <<>>, <<>>, 0, 0, "")
+SetDefAct(mk) == Act("setdef", mk, "", <<>>, <<>>, 0, 0, "")
+ReTypeAct(mk) == Act("retype", mk, "", <<>>, <<>>, 0, 0, "")
+\* wrap: the step function is registered through `wrap` stacked decorators (the registry has to see through them)
+RegAct(s, ty, p, func, wrap, res) == Act("reg", s.current, ty, p, Render(p, s.current), func, wrap, res)
 
-Init == ph = "start" /\ b = 0 /\ st = InitReg /\ hist = <<>> /\ nreg = 0 /\ nfun = 0 /\ h = 0 /\ texts = <<>> /\ look = <<>>
+Init == ph = "start" /\ b = 0 /\ st = InitReg /\ hist = <<>> /\ nreg = 0 /\ nfun = 0 /\ h = 0 /\ fw = <<>> /\ texts = <<>> /\ look = <<>>
 
 ToBucket == /\ ph = "start" /\ ph' = "bucket" /\ b' \in 0..(NB - 1)
-            /\ UNCHANGED <<st, hist, nreg, nfun, h, texts, look>>
+            /\ UNCHANGED <<st, hist, nreg, nfun, h, fw, texts, look>>
 Single == /\ ph = "bucket"
           /\ \E p \in {q \in BigPool : Bucket(q) = b}, mk \in Kinds, ty \in SingleTypes :
                 /\ Renderable(p, mk)
                 /\ LET s1 == UseMatcher(st, mk)
                        r  == Register(s1, ty, p, 1)
                    IN /\ st' = r.st
-                      /\ hist' = (IF mk = "parse" THEN <<>> ELSE <<UseAct(mk)>>) \o <<RegAct(s1, ty, p, 1, r.res)>>
+                      /\ hist' = (IF mk = "parse" THEN <<>> ELSE <<UseAct(mk)>>) \o <<RegAct(s1, ty, p, 1, WrapLevel(PatCode(p, 1)), r.res)>>
+                      /\ fw' = <<WrapLevel(PatCode(p, 1))>>
                       /\ texts' = TextsFor(hist')
                       /\ look' = LooksFor(st', texts')
           /\ ph' = "single" /\ nreg' = 1 /\ nfun' = 1 /\ h' = h /\ b' = b
@@ -140,14 +150,18 @@ EnvDefault == /\ ph = "start"
               /\ \E mk \in Defaults \ {"parse"} :
                     /\ st' = SetDefault(st, mk)
                     /\ hist' = <<SetDefAct(mk)>>
-              /\ ph' = "hist" /\ h' = 7 /\ UNCHANGED <<b, nreg, nfun, texts, look>>
+              /\ ph' = "hist" /\ h' = 7 /\ UNCHANGED <<b, nreg, nfun, fw, texts, look>>
 
 \* an optional matcher switch, then one registration
 PreOptions(s) == {[a |-> "none", kind |-> s.current]}
                  \cup {[a |-> "use", kind |-> mk] : mk \in HistKinds \ {s.current}}
                  \cup (IF s.current # s.default THEN {[a |-> "end", kind |-> s.default]} ELSE {})
-ApplyPre(s, pre) == IF pre.a = "use" THEN UseMatcher(s, pre.kind) ELSE IF pre.a = "end" THEN ModuleEnd(s) ELSE s
-PreActs(pre) == IF pre.a = "use" THEN <<UseAct(pre.kind)>> ELSE IF pre.a = "end" THEN <<EndAct(pre.kind)>> ELSE <<>>
+                 \cup (IF s.current \in ParseKinds /\ s.tver = 1 THEN {[a |-> "retype", kind |-> s.current]} ELSE {})
+ApplyPre(s, pre) == IF pre.a = "use" THEN UseMatcher(s, pre.kind) ELSE IF pre.a = "end" THEN ModuleEnd(s)
+                    ELSE IF pre.a = "retype" THEN ReType(s) ELSE s
+PreActs(pre) == IF pre.a = "use" THEN <<UseAct(pre.kind)>> ELSE IF pre.a = "end" THEN <<EndAct(pre.kind)>>
+                ELSE IF pre.a = "retype" THEN <<ReTypeAct(pre.kind)>> ELSE <<>>
+HasCustom(p) == \E n \in DOMAIN p : p[n].k = "custom"
 RegisterStep ==
    /\ ph \in {"start", "hist"} /\ nreg < MaxRegs
    /\ \E pre \in PreOptions(st), ty \in RegTypes, i \in DOMAIN SmallPool, func \in 1..(nfun + 1) :
@@ -156,10 +170,12 @@ RegisterStep ==
          IN /\ IF st.default = "parse" THEN Kept(nreg + 1, Mix(h, Code(pre, ty, i, func)))
                                         ELSE KeptEnv(nreg + 1, Mix(h, Code(pre, ty, i, func)))
             /\ Renderable(p, s1.current)
+            /\ pre.a = "retype" => HasCustom(p)        \* the type is re-registered just before a pattern that uses it
             /\ h' = Mix(h, Code(pre, ty, i, func))
+            /\ fw' = IF func > nfun THEN Append(fw, WrapLevel(Mix(Mix(h, Code(pre, ty, i, func)), 17))) ELSE fw
             /\ LET r == Register(s1, ty, p, func)
                IN /\ st' = r.st
-                  /\ hist' = hist \o PreActs(pre) \o <<RegAct(s1, ty, p, func, r.res)>>
+                  /\ hist' = hist \o PreActs(pre) \o <<RegAct(s1, ty, p, func, fw'[func], r.res)>>
                   /\ texts' = TextsFor(hist')
                   /\ look' = LooksFor(st', texts')
             /\ nfun' = IF func > nfun THEN func ELSE nfun
